@@ -1,4 +1,117 @@
+// Kani harnesses for sorts/merge.rs (property C08): BOUNDED check of the loser tree on the real
+// methods.  The stream object is forged: only the fields the loser-tree methods touch are
+// initialised (cursors, loser_tree, tie-breaker fields with the tie breaker disabled); the rest
+// (batch builder, input streams, metrics) is never read and the value is never dropped.
 #[allow(unused_qualifications, unused_imports, dead_code, clippy::all)]
 mod verif_kani {
     use super::*;
+    use crate::sorts::cursor::{Cursor, CursorValues};
+    use std::cmp::Ordering;
+    use std::mem::MaybeUninit;
+
+    /// one-row cursor values with a symbolic key
+    #[derive(Debug)]
+    struct V { k: u8 }
+    impl CursorValues for V {
+        type SingleRowValue = u8;
+        fn len(&self) -> usize { 1 }
+        fn eq(l: &Self, _li: usize, r: &Self, _ri: usize) -> bool { l.k == r.k }
+        fn eq_to_previous(_c: &Self, _idx: usize) -> bool { false }
+        fn compare(l: &Self, _li: usize, r: &Self, _ri: usize) -> Ordering { l.k.cmp(&r.k) }
+        fn get_value(&self, _idx: usize) -> u8 { self.k }
+        fn eq_to_single_row_value(l: &Self, _li: usize, r: &u8) -> bool { l.k == *r }
+    }
+
+    const KMAX: usize = 4;
+
+    fn forge(k: usize, keys: &[u8; KMAX], live: &[bool; KMAX]) -> MaybeUninit<SortPreservingMergeStream<V>> {
+        let mut s: MaybeUninit<SortPreservingMergeStream<V>> = MaybeUninit::uninit();
+        let p = s.as_mut_ptr();
+        let mut cursors: Vec<Option<Cursor<V>>> = Vec::new();
+        let mut i = 0;
+        while i < k { cursors.push(if live[i] { Some(Cursor::new(V { k: keys[i] })) } else { None }); i += 1; }
+        unsafe {
+            std::ptr::addr_of_mut!((*p).cursors).write(cursors);
+            std::ptr::addr_of_mut!((*p).loser_tree).write(Vec::new());
+            std::ptr::addr_of_mut!((*p).prev_cursors).write(None); // round-robin tie breaker disabled
+            std::ptr::addr_of_mut!((*p).round_robin_tie_breaker_mode).write(false);
+            std::ptr::addr_of_mut!((*p).num_of_polled_with_same_value).write(Vec::new());
+            std::ptr::addr_of_mut!((*p).poll_reset_epochs).write(Vec::new());
+            std::ptr::addr_of_mut!((*p).current_reset_epoch).write(0);
+        }
+        s
+    }
+
+    /// reference order of the merge: exhausted cursors last, then by key, ties by stream index
+    fn ref_gt(keys: &[u8; KMAX], live: &[bool; KMAX], a: usize, b: usize) -> bool {
+        match (live[a], live[b]) {
+            (false, _) => true,
+            (_, false) => false,
+            _ => (keys[a], a) > (keys[b], b),
+        }
+    }
+    fn check_tree(s: &SortPreservingMergeStream<V>, k: usize, keys: &[u8; KMAX], live: &[bool; KMAX], msg_min: &'static str) {
+        assert!(s.loser_tree.len() == k, "C08.loser_tree.has_one_node_per_stream");
+        // every stream index occurs exactly once
+        let mut seen = [false; KMAX];
+        let mut i = 0;
+        while i < k {
+            let x = s.loser_tree[i];
+            assert!(x < k && !seen[x], "C08.loser_tree.is_a_permutation_of_the_streams");
+            seen[x] = true;
+            i += 1;
+        }
+        // the winner is a minimum of the merge order
+        let w = s.loser_tree[0];
+        let mut j = 0;
+        let _ = msg_min;
+        while j < k { if j != w { assert!(ref_gt(keys, live, j, w), "C08.loser_tree.winner_is_minimum_of_the_merge_order"); } j += 1; }
+    }
+
+    // The stream count is a compile-time constant per harness: with a symbolic count CBMC 6.11 crashes in
+    // propositional reduction on this program ("CBMC failed", probed; every concrete count verifies in seconds).
+    fn check_init<const K: usize>() {
+        let keys: [u8; KMAX] = kani::any();
+        let live: [bool; KMAX] = kani::any();
+        let mut st = forge(K, &keys, &live);
+        let s = unsafe { &mut *st.as_mut_ptr() };
+        let (a, b): (usize, usize) = (kani::any(), kani::any());
+        kani::assume(a < K && b < K);
+        if a != b { assert!(s.is_gt(a, b) == ref_gt(&keys, &live, a, b), "C08.is_gt.exhausted_last_then_key_then_index"); }
+        s.init_loser_tree();
+        check_tree(s, K, &keys, &live, "init");
+        kani::cover!(live[0] && (K < 2 || !live[1]));
+        std::mem::forget(st);
+    }
+    fn check_update<const K: usize>() {
+        let mut keys: [u8; KMAX] = kani::any();
+        let mut live: [bool; KMAX] = kani::any();
+        let mut st = forge(K, &keys, &live);
+        let s = unsafe { &mut *st.as_mut_ptr() };
+        s.init_loser_tree();
+        let w = s.loser_tree[0];
+        kani::assume(w < K);
+        // the winner is consumed: its stream presents an arbitrary new head, or is exhausted
+        let exhausted: bool = kani::any();
+        let nk: u8 = kani::any();
+        let newc = if exhausted { None } else { Some(Cursor::new(V { k: nk })) };
+        live[w] = !exhausted;
+        keys[w] = nk;
+        let old = std::mem::replace(&mut s.cursors[w], newc);
+        std::mem::forget(old);
+        s.update_loser_tree();
+        check_tree(s, K, &keys, &live, "update");
+        kani::cover!(exhausted);
+        kani::cover!(!exhausted);
+        std::mem::forget(st);
+    }
+    macro_rules! lt { ($($n:ident = $f:ident::<$k:literal>;)*) => { $( #[kani::proof] #[kani::unwind(7)] fn $n() { $f::<$k>(); } )* }; }
+    lt! {
+        c08_loser_tree_init_k2_bounded = check_init::<2>;
+        c08_loser_tree_init_k3_bounded = check_init::<3>;
+        c08_loser_tree_init_k4_bounded = check_init::<4>;
+        c08_loser_tree_update_k2_bounded = check_update::<2>;
+        c08_loser_tree_update_k3_bounded = check_update::<3>;
+        c08_loser_tree_update_k4_bounded = check_update::<4>;
+    }
 }
